@@ -173,6 +173,63 @@ fn zigzag_ref(z: i32) -> u32 {
 
 /// Exhaustive: all 2^32 u32 and all 2^32 i32 values, three sinks and three sources each, against the
 /// transcribed reference.  args: <threads> [<stride>]  (stride 1 = exhaustive)
+fn sweep_range(lo: u64, hi: u64, stride: u64) -> (u64, Option<String>) {
+    let mut n = 0u64;
+    let mut buf = [0u8; 5];
+    let mut vec: Vec<u8> = Vec::with_capacity(8);
+    let mut bm = BytesMut::with_capacity(8);
+    let mut x = lo;
+    while x < hi {
+        let v = x as u32;
+        // unsigned
+        let len = leb128(v, &mut buf);
+        vec.clear();
+        vec.write_var_u32(v);
+        bm.clear();
+        bm.write_var_u32(v);
+        let mut sc = SizeCalculator::new();
+        sc.write_var_u32(v);
+        if vec[..] != buf[..len] || bm[..] != buf[..len] || sc.size() != len {
+            return (n, Some(format!("u {v} write {} ref {}", hex(&vec), hex(&buf[..len]))));
+        }
+        let mut si = SliceInput::new(&vec);
+        let a = si.read_var_u32().ok();
+        let mut ctx = DeserializationContext::new(&vec);
+        let c = ctx.read_var_u32().ok();
+        let mut oi = OwnedInput::new(vec.clone());
+        let b = oi.read_var_u32().ok();
+        if a != Some(v) || b != Some(v) || c != Some(v) || si.pos != len || ctx.read_u8().is_ok() || oi.read_u8().is_ok() {
+            return (n, Some(format!("u {v} read {:?} {:?} {:?}", a, b, c)));
+        }
+
+        // signed
+        let z = v as i32;
+        let len = leb128(zigzag_ref(z), &mut buf);
+        vec.clear();
+        vec.write_var_i32(z);
+        bm.clear();
+        bm.write_var_i32(z);
+        let mut sc = SizeCalculator::new();
+        sc.write_var_i32(z);
+        if vec[..] != buf[..len] || bm[..] != buf[..len] || sc.size() != len {
+            return (n, Some(format!("i {z} write {} ref {}", hex(&vec), hex(&buf[..len]))));
+        }
+        let mut si = SliceInput::new(&vec);
+        let a = si.read_var_i32().ok();
+        let mut ctx = DeserializationContext::new(&vec);
+        let c = ctx.read_var_i32().ok();
+        let mut oi = OwnedInput::new(vec.clone());
+        let b = oi.read_var_i32().ok();
+        if a != Some(z) || b != Some(z) || c != Some(z) || si.pos != len || ctx.read_u8().is_ok() || oi.read_u8().is_ok() {
+            return (n, Some(format!("i {z} read {:?} {:?} {:?}", a, b, c)));
+        }
+
+        n += 2;
+        x += stride;
+    }
+    (n, None)
+}
+
 pub fn sweep(args: &[String]) {
     let threads: u64 = args.get(0).map(|s| s.parse().unwrap()).unwrap_or(16);
     let stride: u64 = args.get(1).map(|s| s.parse().unwrap()).unwrap_or(1);
@@ -180,64 +237,23 @@ pub fn sweep(args: &[String]) {
     let chunk = total / threads;
     let mut handles = Vec::new();
     for t in 0..threads {
-        handles.push(std::thread::spawn(move || -> (u64, Option<String>) {
-            let lo = t * chunk;
-            let hi = if t == threads - 1 { total } else { lo + chunk };
-            let mut n = 0u64;
-            let mut buf = [0u8; 5];
-            let mut vec: Vec<u8> = Vec::with_capacity(8);
-            let mut bm = BytesMut::with_capacity(8);
-            let mut x = lo;
-            while x < hi {
-                let v = x as u32;
-                // unsigned
-                let len = leb128(v, &mut buf);
-                vec.clear();
-                vec.write_var_u32(v);
-                bm.clear();
-                bm.write_var_u32(v);
-                let mut sc = SizeCalculator::new();
-                sc.write_var_u32(v);
-                if vec[..] != buf[..len] || bm[..] != buf[..len] || sc.size() != len {
-                    return (n, Some(format!("u {v} write {} ref {}", hex(&vec), hex(&buf[..len]))));
+        let lo = t * chunk;
+        let hi = if t == threads - 1 { total } else { lo + chunk };
+        handles.push(std::thread::spawn(move || sweep_range(lo, hi, stride)));
+    }
+    if stride > 1 {
+        // a strided sweep is completed by exhaustive windows of +-65536 around every place where the encoding
+        // changes shape: 0, the 7-bit group boundaries (and their zig-zag pre-images 2^6, 2^13, ...), 2^31, 2^32
+        let w: u64 = 65536;
+        for p in [0u64, 1 << 6, 1 << 7, 1 << 13, 1 << 14, 1 << 20, 1 << 21, 1 << 27, 1 << 28, 1 << 31, 1 << 32] {
+            for c in [p, total - p] {
+                let lo = c.saturating_sub(w);
+                let hi = (c + w).min(total);
+                if lo < hi {
+                    handles.push(std::thread::spawn(move || sweep_range(lo, hi, 1)));
                 }
-                let mut si = SliceInput::new(&vec);
-                let a = si.read_var_u32().ok();
-                let mut ctx = DeserializationContext::new(&vec);
-                let c = ctx.read_var_u32().ok();
-                let mut oi = OwnedInput::new(vec.clone());
-                let b = oi.read_var_u32().ok();
-                if a != Some(v) || b != Some(v) || c != Some(v) || si.pos != len || ctx.read_u8().is_ok() || oi.read_u8().is_ok() {
-                    return (n, Some(format!("u {v} read {:?} {:?} {:?}", a, b, c)));
-                }
-
-                // signed
-                let z = v as i32;
-                let len = leb128(zigzag_ref(z), &mut buf);
-                vec.clear();
-                vec.write_var_i32(z);
-                bm.clear();
-                bm.write_var_i32(z);
-                let mut sc = SizeCalculator::new();
-                sc.write_var_i32(z);
-                if vec[..] != buf[..len] || bm[..] != buf[..len] || sc.size() != len {
-                    return (n, Some(format!("i {z} write {} ref {}", hex(&vec), hex(&buf[..len]))));
-                }
-                let mut si = SliceInput::new(&vec);
-                let a = si.read_var_i32().ok();
-                let mut ctx = DeserializationContext::new(&vec);
-                let c = ctx.read_var_i32().ok();
-                let mut oi = OwnedInput::new(vec.clone());
-                let b = oi.read_var_i32().ok();
-                if a != Some(z) || b != Some(z) || c != Some(z) || si.pos != len || ctx.read_u8().is_ok() || oi.read_u8().is_ok() {
-                    return (n, Some(format!("i {z} read {:?} {:?} {:?}", a, b, c)));
-                }
-
-                n += 2;
-                x += stride;
             }
-            (n, None)
-        }));
+        }
     }
     let mut n = 0;
     let mut bad = None;
